@@ -46,3 +46,5 @@ func StrEq(a, b string) bool     { panic("zzverif: engine only") }
 func BytesEq(a, b []byte) bool   { panic("zzverif: engine only") }
 
 func Cached(key string, f func() interface{}) interface{} { panic("zzverif: engine only") }
+
+func Stub(name string, fn interface{}) { panic("zzverif: engine only") }
